@@ -119,7 +119,11 @@ func TestPubSubFree(t *testing.T) {
 			}
 		})
 		defer bigbuff.VerifSetHook(nil)
-		trace := []string{fmt.Sprintf("senders=%v hooks=%v", sy, hookY)}
+		// without the witness the subscriber count can drop to zero in the middle of the run (e.g. every counted
+		// subscriber withdraws during a Send while somebody new joins): the global-order oracle then falls back to
+		// successor consistency between the streams
+		noWitness := rapid.IntRange(0, 2).Draw(t, "noWitness") == 0
+		trace := []string{fmt.Sprintf("senders=%v hooks=%v noWitness=%v", sy, hookY, noWitness)}
 		for i, s := range subs {
 			trace = append(trace, fmt.Sprintf("s%d=%v", i, *s))
 		}
@@ -139,6 +143,9 @@ func TestPubSubFree(t *testing.T) {
 		)
 		stamp := func() int64 { return clock.Add(1) }
 		all := append([]*psfSub{witness}, subs...)
+		if noWitness {
+			all = append([]*psfSub{{kind: "absent"}}, subs...)
+		}
 
 		rapid.SyncTest(t, func(t *rapid.T) {
 			x := bigbuff.NewChanPubSub(make(chan int))
@@ -274,9 +281,11 @@ func TestPubSubFree(t *testing.T) {
 					s.unsubReturned = stamp()
 				}
 			}
-			wgSubs.Add(1)
-			wgEarly.Add(1)
-			go runSub(-1, witness, true)
+			if !noWitness {
+				wgSubs.Add(1)
+				wgEarly.Add(1)
+				go runSub(-1, witness, true)
+			}
 			for i, s := range subs {
 				wgSubs.Add(1)
 				if s.early {
@@ -403,39 +412,77 @@ func TestPubSubFree(t *testing.T) {
 				}
 			}
 		}
-		// one global order: the witness stream
-		var w []int
+		// one global order
 		pos := map[int]int{}
-		for i, r := range witness.got {
-			w = append(w, r.tok)
-			pos[r.tok] = i
-		}
-		if len(w) != len(sends) {
-			fail("C06/witness-incomplete", "the witness subscription (subscribed before the first Send, leaves after the last) received %d of %d messages", len(w), len(sends))
-		}
-		lastSeq := map[int]int{}
-		for _, tok := range w {
-			s, j := tok/1000, tok%1000
-			if prev, ok := lastSeq[s]; ok && j != prev+1 {
-				fail("C06/sender-order", "the global order does not extend sender %d's program order: %v", s, w)
+		if !noWitness {
+			// the witness stream is the order
+			var w []int
+			for i, r := range witness.got {
+				w = append(w, r.tok)
+				pos[r.tok] = i
 			}
-			if _, ok := lastSeq[s]; !ok && j != 0 {
-				fail("C06/sender-order", "the global order does not extend sender %d's program order: %v", s, w)
+			if len(w) != len(sends) {
+				fail("C06/witness-incomplete", "the witness subscription (subscribed before the first Send, leaves after the last) received %d of %d messages", len(w), len(sends))
 			}
-			lastSeq[s] = j
-		}
-		for i, s := range subs {
-			for k := 1; k < len(s.got); k++ {
-				if pos[s.got[k].tok] != pos[s.got[k-1].tok]+1 {
-					fail("C06/not-contiguous", "subscription %d saw %v which is not a contiguous run of the global order %v", i, s.got, w)
+			lastSeq := map[int]int{}
+			for _, tok := range w {
+				s, j := tok/1000, tok%1000
+				if prev, ok := lastSeq[s]; ok && j != prev+1 {
+					fail("C06/sender-order", "the global order does not extend sender %d's program order: %v", s, w)
+				}
+				if _, ok := lastSeq[s]; !ok && j != 0 {
+					fail("C06/sender-order", "the global order does not extend sender %d's program order: %v", s, w)
+				}
+				lastSeq[s] = j
+			}
+			for i, s := range subs {
+				for k := 1; k < len(s.got); k++ {
+					if pos[s.got[k].tok] != pos[s.got[k-1].tok]+1 {
+						fail("C06/not-contiguous", "subscription %d saw %v which is not a contiguous run of the global order %v", i, s.got, w)
+					}
 				}
 			}
-		}
-		// real-time order between Sends
-		for _, a := range sends {
-			for _, b := range sends {
-				if a.returned < b.called && a.n > 0 && b.n > 0 && pos[a.tok] > pos[b.tok] {
-					fail("C06/realtime-order", "Send(%d) returned before Send(%d) was called, yet the global order has them reversed: %v", a.tok, b.tok, w)
+			for _, a := range sends {
+				for _, b := range sends {
+					if a.returned < b.called && a.n > 0 && b.n > 0 && pos[a.tok] > pos[b.tok] {
+						fail("C06/realtime-order", "Send(%d) returned before Send(%d) was called, yet the global order has them reversed: %v", a.tok, b.tok, w)
+					}
+				}
+			}
+		} else {
+			// no witness: all streams must be explainable by ONE order in which only messages that nobody received
+			// may be missing: successor consistency over the messages with n > 0, sender order and real-time order
+			// inside every stream
+			received := map[int]bool{}
+			for _, sd := range sends {
+				if sd.n > 0 {
+					received[sd.tok] = true
+				}
+			}
+			succ, pred := map[int]int{}, map[int]int{}
+			for i, s := range subs {
+				for k := 1; k < len(s.got); k++ {
+					a, b := s.got[k-1].tok, s.got[k].tok
+					if x, ok := succ[a]; ok && x != b {
+						fail("C06/not-contiguous", "message %d is followed by %d in subscription %d's stream but by %d in another one: the streams are not runs of one order", a, b, i, x)
+					}
+					if x, ok := pred[b]; ok && x != a {
+						fail("C06/not-contiguous", "message %d is preceded by %d in subscription %d's stream but by %d in another one", b, a, i, x)
+					}
+					succ[a], pred[b] = b, a
+					if a/1000 == b/1000 && b%1000 <= a%1000 {
+						fail("C06/sender-order", "subscription %d saw sender %d's messages out of program order: %v", i, a/1000, s.got)
+					}
+					sa, sb := sendByTok[a], sendByTok[b]
+					if sb.returned < sa.called {
+						fail("C06/realtime-order", "subscription %d saw %d before %d although Send(%d) had returned before Send(%d) was called", i, a, b, b, a)
+					}
+					// a message with receivers whose Send lies entirely between the two cannot have been skipped
+					for _, sd := range sends {
+						if sd.n > 0 && sd.tok != a && sd.tok != b && sa.returned < sd.called && sd.returned < sb.called {
+							fail("C06/not-contiguous", "subscription %d saw %d then %d but not %d, which had receivers and was sent entirely in between", i, a, b, sd.tok)
+						}
+					}
 				}
 			}
 		}
